@@ -303,10 +303,13 @@ impl<'arena> Diagnostics<'arena> {
         (line_idx + 1, col, line_start, line_end)
     }
 
-    fn compute_line_starts(&self, src: &str) -> Vec<usize, &'arena Arena> {
+    // This runs once per rendered span. The table is a short-lived heap vector: the
+    // arena never gives memory back, and a source-sized buffer per call exhausted it
+    // when a large script produced many diagnostics.
+    fn compute_line_starts(&self, src: &str) -> Vec<usize> {
         let haystack = src.as_bytes();
         let len = haystack.len();
-        let mut starts = Vec::with_capacity_in(len, self.arena);
+        let mut starts = Vec::new();
         starts.push(0);
 
         let mut offset = 0;
